@@ -262,6 +262,9 @@ class SimplifySymbolNames:
     the application of mutator :class:`ddsmt.mutators_core.ReplaceByVariable`).
     """
 
+    RESERVED_WORDS = ('_', '!', 'as', 'let', 'exists', 'forall', 'match',
+                      'par')
+
     def filter(self, node):
         # check for is_const(node[1]) to avoid x -> false -> fals -> false
         # if the variable is irrelevant, false may be accepted by the solver
@@ -300,7 +303,11 @@ class SimplifySymbolNames:
             for s in self.__simpler(symbol):
                 # The simpler version must not be a constant, e.g. v1 -> 1:
                 # all occurrences of that constant would become the symbol.
-                if not is_var(Node(s)) and not is_const(Node(s)):
+                # The same holds for reserved words, e.g. _x -> _: the
+                # underscore of every indexed identifier would become the
+                # symbol.
+                if not is_var(Node(s)) and not is_const(
+                        Node(s)) and s not in self.RESERVED_WORDS:
                     yield Simplification({symbol: Node(s)}, [])
 
     def __simpler(self, symbol):
